@@ -720,6 +720,8 @@ func (w *World) Run() {
 		}
 		if w.allDone() {
 			w.stop("all-decided")
+		} else if w.Mon != nil {
+			w.Mon.checkStagnation()
 		}
 	}
 	if !w.stopped {
